@@ -18,6 +18,23 @@ use fibre::mpsc::bounded_async;
 use std::sync::Arc;
 use tokio::task::JoinHandle;
 
+/// The address a lost outbound connection has to be re-established at: the endpoint's TARGET (what
+/// connect() was given), not the name of the connection itself - for ipc the latter is a synthetic
+/// `ipc://ipc-fd-<n>` that nothing listens on. To be asked before the endpoint is cleaned up.
+pub(crate) fn reconnect_target_of(
+  core_arc: &SocketCore,
+  endpoint_uri_opt: Option<&str>,
+  child_actor_id: usize,
+) -> Option<String> {
+  let core_s_read = core_arc.core_state.read();
+  let by_uri = endpoint_uri_opt
+    .and_then(|u| core_s_read.endpoints.get(u))
+    .filter(|ep| ep.handle_id == child_actor_id);
+  let ep = by_uri.or_else(|| core_s_read.endpoints.values().find(|ep| ep.handle_id == child_actor_id));
+  ep.and_then(|ep| ep.target_endpoint_uri.clone())
+    .or_else(|| endpoint_uri_opt.map(|u| u.to_string()))
+}
+
 pub(crate) async fn cleanup_stopped_child_resources(
   core_arc: Arc<SocketCore>,
   socket_logic_strong: &Arc<dyn ISocket>,
